@@ -105,6 +105,22 @@ def drain {V} (r : EIRunner V) : List (Key × Nat) → List (Key × V) → Excep
         | .error e => .error e
         | .ok d => .ok { d with others := o :: d.others, ran := t :: d.ran }
 
+/-- the interrupt site after `tm.waitAll()` when a drained task aborts: what is persisted.
+    `cm'` = the channels after `calculateNextTasks` on the collected task `o` (the channels of its
+    ready successors `ts` have been emptied by `get`), `d` = the drained tasks. -/
+def secondSite {V} (save : DrainSave) (r : Runner V) (cm' : Chans V) (o : Done V) (ts : List (Key × V))
+    (d : Drained V) : Except Err (ECp V) :=
+  let folded := match save with
+    | .refold => o :: d.others
+    | .drainedOnly => d.others
+    | .pending => d.others
+  let pend := match save with
+    | .pending => ts
+    | _ => []
+  match foldDone r cm' folded with
+  | .error e => .error e
+  | .ok cm2 => .ok { chans := cm2, inputs := pend ++ d.aborting, att := d.att }
+
 def hit {V} (r : EIRunner V) (k : Key) (ts : List (Key × V)) : Bool :=
   r.intAfter.contains k || ts.any (fun t => r.intBefore.contains t.1)
 
@@ -148,17 +164,9 @@ def callLoop {V} (ops : ValOps V) (save : DrainSave) (r : EIRunner V) (pick : Pi
                     { res := .interrupted { chans := cm2, inputs := ts ++ ts2, att := d.att }, execs := ex ++ [t] ++ d.ran }
                 else
                   -- second site: an interrupt point was hit and a drained task aborts
-                  let folded := match save with
-                    | .refold => o :: d.others
-                    | .drainedOnly => d.others
-                    | .pending => d.others
-                  let pend := match save with
-                    | .pending => ts
-                    | _ => []
-                  match foldDone r.base cm' folded with
+                  match secondSite save r.base cm' o ts d with
                   | .error e => { res := .failed e, execs := ex ++ [t] ++ d.ran }
-                  | .ok cm2 =>
-                    { res := .interrupted { chans := cm2, inputs := pend ++ d.aborting, att := d.att }, execs := ex ++ [t] ++ d.ran }
+                  | .ok cp => { res := .interrupted cp, execs := ex ++ [t] ++ d.ran }
 
 /-- one call of `runner.run`: a fresh input or a checkpoint to resume from (the restored tasks are
     submitted without another interrupt-before check) -/
